@@ -66,3 +66,30 @@ Theorem C11_merge_hands_out_only_items_of_its_sources :
   Forall (fun t => exists id n, t = TItem id n /\ In id (taken_in P init_state ops)) (handed_in P init_state ops).
 Proof. exact merge_hands_out_only_items_of_its_sources. Qed.
 Print Assumptions C11_merge_hands_out_only_items_of_its_sources.
+
+(** exactly the items of the source (MergeTotals.v): [il sc] is the number of item letters of a
+    script before its end letter.  A poll that answers with an item moves one unit from "still
+    to come" to "produced", nothing else changes the sum, and a merge never creates a source: in
+    every reachable state every held source was given with a script [sc] such that
+    produced + still to come = il sc *)
+From FB Require Import MergeTotals.
+Theorem C11_merge_source_totals :
+  forall (P : params) (ops : list op) (c : child),
+  Forall m_op ops -> kid_coll (st_coll (reach P ops)) c ->
+  exists sc, In (cid c, sc) (offered ops) /\ cseq c + left c = il sc.
+Proof. exact merge_source_totals. Qed.
+Print Assumptions C11_merge_source_totals.
+
+(** with the ledger: what has been handed out for a held source is its items 0 .. cseq - 1, never
+    more than its script holds, and all of them once no item letter is left before its end *)
+Theorem C11_merge_source_delivers_its_script :
+  forall (P : params), params_ok P ->
+  forall (ops : list op) (c : child),
+  Forall m_op ops -> NoDup (taken_in P init_state ops) ->
+  kid_coll (st_coll (reach P ops)) c -> cdone c = false ->
+  exists sc, In (cid c, sc) (offered ops)
+             /\ seqs (cid c) (handed_in P init_state ops) = seq 0 (cseq c)
+             /\ cseq c <= il sc
+             /\ (il (cscript c) = 0 -> cseq c = il sc).
+Proof. exact merge_source_delivers_its_script. Qed.
+Print Assumptions C11_merge_source_delivers_its_script.
